@@ -106,7 +106,11 @@ func (w *Writer) Flush() (err error) {
 	if w.w != nil {
 		return w.w.Flush()
 	}
-	return w.lc.Flush()
+	err = w.lc.Flush()
+	if err != nil {
+		w.err = err
+	}
+	return err
 }
 
 func (w *Writer) Close() (err error) {
@@ -116,5 +120,9 @@ func (w *Writer) Close() (err error) {
 	if w.w != nil {
 		return w.w.Close()
 	}
-	return w.lc.Close()
+	err = w.lc.Close()
+	if err != nil {
+		w.err = err
+	}
+	return err
 }
